@@ -23,6 +23,7 @@
    reader-level statement over hist_op stays limited to {cursor, encryption over cursor}):
    lifting to `Run.hist_op` needs every operation of Reader.v to respect E and preserve P;
    Reader.v is being changed concurrently and was not touched. *)
+From MLA Require Import Limit.
 From MLA Require Import Base Stream EncLayer CompLayer RawLayer LayerStack.
 From Coq Require Import ZifyBool ZifyNat ZifyN.
 Open Scope N_scope.
@@ -90,6 +91,7 @@ Lemma forgetsP_throttled b : SeekForgetsP (Throttled b) (fun a c => snd a = snd 
 Proof. intros [p1 sc1] [p2 sc2] p Hs. cbn [snd] in Hs. subst sc2. cbn. split; [reflexivity | intros _; reflexivity]. Qed.
 
 Section RawForgets.
+  Context {LIM : Limit}.
   Variable S : Stream.
   Variable P : st S -> st S -> Prop.
   Hypothesis HS : SeekForgetsP S P.
@@ -114,6 +116,7 @@ Lemma raw_strict_refuted :
 Proof. exists (@mkR (Cursor [1; 2; 3]) 0 0), (@mkR (Cursor [1; 2; 3]) 0 1). vm_compute. discriminate. Qed.
 
 Section EncForgetsP.
+  Context {LIM : Limit}.
   Variables CHUNK TAG : N.
   Variable ks : N -> N -> N.
   Variable tagc : N -> bytes -> bytes.
@@ -140,6 +143,7 @@ End EncForgetsP.
 
 (* ---------- compression ---------- *)
 Section CompForgets.
+  Context {LIM : Limit}.
   Variable BLOCK : N.
   Variable dec : bytes -> bytes.
   Variable S : Stream.
@@ -290,6 +294,7 @@ Qed.
 
 (* ---------- the stack of ArchiveReader::from_config ---------- *)
 Section StackForgets.
+  Context {LIM : Limit}.
   Variables CHUNK TAG BLOCK : N.
   Variable ks : N -> N -> N.
   Variable tagc : N -> bytes -> bytes.
